@@ -80,3 +80,27 @@ func VerifC18DeepHistory(depth int) {
 	vrt.Assert("C18/deep/second-call-succeeds", err2 == nil)
 	vrt.Assert("C18/deep/same-bytes", bytes.Equal(w2.Bytes(), w3.Bytes()))
 }
+
+// VerifC18ScratchPools: the scratch slices that the Deterministic paths take from package-level
+// pools (sorted names of maps and of embedded map fallbacks) carry nothing from one call to the
+// next: a nested deterministic map marshals to the same bytes before and after an unrelated
+// call that used the same pools (an embedded map fallback with several entries), whatever
+// that call's outcome.
+func VerifC18ScratchPools() {
+	b1, b2 := vrt.Bool("b1"), vrt.Bool("b2")
+	nested := map[string]map[string]bool{"a": {"x": b1, "y": true}, "b": {"z": b2, "w": false}}
+	want, err0 := Marshal(nested, Deterministic(true))
+	vrt.Assert("C18/pools/first-call", err0 == nil)
+	fb := map[string]any{"p": 1.5, "q": b1}
+	if vrt.Bool("collide") {
+		fb["A"] = true // collides with the struct's own member: the call fails after the names were sorted
+	}
+	_, errA := Marshal(&zz02EmbMap{A: 1, X: fb}, Deterministic(true))
+	if errA != nil {
+		vrt.Cover("unrelated-call-failed")
+	} else {
+		vrt.Cover("unrelated-call-ok")
+	}
+	got, err1 := Marshal(nested, Deterministic(true))
+	vrt.Assert("C18/pools/same-result-after-unrelated-call", err1 == nil && bytes.Equal(got, want))
+}
